@@ -5,6 +5,7 @@
 package main
 
 import (
+	"flag"
 	"fmt"
 	"strings"
 	"time"
@@ -290,4 +291,31 @@ func scenariosFor(tier string) []vrt.Scenario {
 	return out
 }
 
-func main() { vrt.Main("C09", scenariosFor) }
+// -prop C02: the slow-worker scenarios only, as a part of C02's check - every value the
+// ticking worker evaluates, zero included, reaches the pool and supersedes what is pending
+// (the pools harness drives the pool below the ticking worker). Findings are keyed C02/...
+var prop = flag.String("prop", "C09", "C09|C02")
+
+func scenariosForProp(tier string) []vrt.Scenario {
+	all := scenariosFor(tier)
+	if *prop != "C02" {
+		return all
+	}
+	var out []vrt.Scenario
+	for _, sc := range all {
+		if !strings.Contains(sc.Name, "/slow-body=") {
+			continue
+		}
+		post := sc.Post
+		sc.Post = func(o *vrt.Outcome) {
+			post(o)
+			for i := range o.Violations {
+				o.Violations[i].Key = strings.Replace(o.Violations[i].Key, "C09/", "C02/ticking-worker/", 1)
+			}
+		}
+		out = append(out, sc)
+	}
+	return out
+}
+
+func main() { vrt.Main(*prop, scenariosForProp) }
